@@ -255,6 +255,20 @@ def gen_world(r: random.Random, profile: str) -> Dict[str, Any]:
         w.add_scripted("SH", n_hft, True)
     if not w.scripted:
         w.add_scripted("SA", 1, False)
+    if len(w.markets) >= 2 and r.random() < 0.3:
+        # a group with access to a strict subset of the markets
+        sub = r.sample([m["name"] for m in w.markets], r.randint(1, len(w.markets) - 1))
+        w.add_scripted("SS", r.randint(1, 2), r.random() < 0.3, markets=sub)
+    comps_all = [m["name"] for m in w.markets if not m["index"]]
+    if any(m["index"] for m in w.markets) and len(comps_all) >= 2 and r.random() < 0.3 and P != "sessions":
+        # a second index market; components may belong to both
+        sub = r.sample(comps_all, r.randint(2, len(comps_all)))
+        shares = [w.cfg[c]["outstandingShares"] for c in sub]
+        pidx = sum(w.cfg[c].get("marketPrice", w.cfg[c].get("fundamentalPrice")) * sh for c, sh in zip(sub, shares)) / sum(shares)
+        w.add_index("IDX2", 1.0, float(round(pidx)), sub, position=None)
+        for a in w.scripted:
+            if a["name"].startswith("SA") and r.random() < 0.5:
+                pass
     if P in ("ledger", "clock") and r.random() < 0.5:
         # built-in agents trade next to the scripted ones
         d = dict(FCN_SETTINGS)
@@ -324,6 +338,14 @@ def events_for(r: random.Random, w: World, P: str) -> None:
             s.setdefault("events", []).append(name)
     if P == "hooks":
         gen_probes(r, w)
+    if len(w.sessions) >= 2 and r.random() < 0.2:
+        # the same event entry listed in two sessions (two instances of one configuration)
+        src = [s_ for s_ in w.sessions if s_.get("events")]
+        if src:
+            ev = r.choice(r.choice(src)["events"])
+            tgt_s = r.choice(w.sessions)
+            if ev not in tgt_s.get("events", []):
+                tgt_s.setdefault("events", []).append(ev)
 
 
 def gen_probes(r: random.Random, w: World) -> None:
@@ -340,8 +362,10 @@ def gen_probes(r: random.Random, w: World) -> None:
         hooks = []
         for kind, before in r.sample(kinds, r.randint(1, 6)):
             u = r.random()
-            if u < 0.3:
+            if u < 0.27:
                 times = None
+            elif u < 0.3:
+                times = []  # an empty time list: never
             elif u < 0.45:
                 times = [r.randrange(0, total + 2)]
             elif u < 0.65:
@@ -428,7 +452,7 @@ def gen_rules(r: random.Random, profile: str) -> Dict[str, Any]:
             p0 = float(round(r.choice([100, 300, 1000]) / tick) * tick)
             w.add_market(f"M{i}", tick, p0)
         names = [m["name"] for m in w.markets]
-        rate = r.choice([0.01, 0.05, 0.1, 0.3])
+        rate = r.choice([0.01, 0.05, 0.1, 0.3]) if r.random() < 0.93 else r.choice([0.0, 1.0, 1.5])
         all_targets = r.random() < 0.35
         targets = names if all_targets else r.sample(names, r.randint(1, n - 1))
         w.add_scripted("SA", r.randint(2, 5), False)
@@ -497,8 +521,8 @@ def gen_rules(r: random.Random, profile: str) -> Dict[str, Any]:
             name = f"TH{k}"
             k += 1
             w.cfg[name] = {"class": "TradingHaltRule", "targetMarkets": tg,
-                           "triggerChangeRate": r.choice([0.005, 0.01, 0.02, 0.05, 0.1]),
-                           "haltingTimeLength": r.randint(1, 8), "enabled": r.random() < 0.92}
+                           "triggerChangeRate": r.choice([0.005, 0.01, 0.02, 0.05, 0.1]) if r.random() < 0.95 else 0.0,
+                           "haltingTimeLength": r.randint(1, 8) if r.random() < 0.95 else 0, "enabled": r.random() < 0.92}
             si = r.choice(exec_sessions) if r.random() < 0.85 else r.randrange(ns)
             w.sessions[si].setdefault("events", []).append(name)
         steps = w.total_steps()
